@@ -277,6 +277,8 @@ def run(tier, seed, drv, prop=None):
         n = {'quick': 1100, 'thorough': 5000}[tier]
         AIO_ENGINE.run_outage(res, drv, lambda: Impl('me', 'secret'), AIO_ENGINE.canon, True, 't', 'twisted', n)
         AIO_ENGINE.run_outage(res, drv, lambda: Impl('me', 'secret', policy='default'), AIO_ENGINE.canon, True, 't', 'twisted', n)
+    if prop in (None, 'C12'):
+        AIO_ENGINE.run_backlog(res, drv, lambda: Impl('me', 'secret'), AIO_ENGINE.canon, True, 't', 'twisted', {'quick': 1500, 'thorough': 6000}[tier])
     res.assumptions += [
         'Twisted: MemoryReactorClock is the global reactor; the endpoint is scripted (each attempt accepted or refused); retryPolicy is the constant 1.0 s; ClientService is library code taken as is',
         'application calls are injected between reactor steps',
